@@ -211,6 +211,15 @@ fn check_one(
     data: &[u8],
     seed: u64,
 ) -> (u32, u64) {
+    // calls are independent: one that failed half-way (here: the sink refuses its k-th write) on
+    // this thread just before must leave nothing behind that shows up in the next call's output
+    if seed % 5 == 1 && !data.is_empty() {
+        let k = 1 + (seed >> 8) % 3;
+        let bad = SharedSink::new().with(|s| s.fail_write_at = Some(k));
+        let other: Vec<u8> = data.iter().rev().take(70_000).map(|b| b ^ 0x5A).collect();
+        let r = encode(enc, (seed >> 4) as usize % 5, &other, seed ^ 1, &bad);
+        cov.name(if r.verdict.is_ok() { "earlier_call_with_failing_sink.succeeded_anyway" } else { "earlier_call_with_failing_sink.failed" }, 1);
+    }
     let sink = SharedSink::new();
     let er = encode(enc, reader, data, seed, &sink);
     out.evals += 1;
